@@ -1,12 +1,13 @@
 import ScyllaVerif.Model.Util
 import ScyllaVerif.Model.Keyspace
+import ScyllaVerif.Model.KeyspaceTopology
 /-! Line-protocol driver for C20.  Input: `<case>\t<implementation output>`; output: the model's line.
 
 * `name <hex utf8> <cs>`                       → `ok <hex of the USE statement>` | `err <kind>`
 * `resp <hex name> <cs> <kind> <hex resp name>` → `ok` | `err <label>`  (one `USE` exchange on one connection)
 -/
 namespace ScyllaVerif.Drive.C20
-open ScyllaVerif.Util ScyllaVerif.Keyspace
+open ScyllaVerif.Util ScyllaVerif.Keyspace ScyllaVerif.KeyspaceTopology
 
 def strOfHex (h : String) : Option String :=
   match parseHex h with
@@ -515,9 +516,18 @@ structure CSim where
   rules : List (Nat × Option Nat)      -- (name index, node or all): the node answers that `USE` with an error
   muted : List Nat := []               -- nodes that do not answer `USE` at all (the statement is dropped)
   stuck : List (Nat × List (Nat × Nat)) := []   -- per node: (connection, number of dropped statements still in its queue)
+  -- `known_nodes` as node objects (host = the mock cluster's node index; pool = the cluster model's node id: the two
+  -- differ once a refresh has re-created the `Node` of a known host) and the datacenter / rack the cluster reports
+  topo : List NodeObj := []
+  attrs : List (Nat × Nat) := []       -- per host (dc, rack) as reported in system.local / system.peers
 
-def CSim.nodeSim (c : CSim) (n : Nat) : Sim :=
-  let pool := c.ss.cluster.pools n
+/-- The cluster-model node of a mock-cluster node (host), and back. -/
+def CSim.mid (c : CSim) (h : Nat) : Nat := ((c.topo.find? (·.host == h)).map (·.pool)).getD h
+def CSim.hostOf (c : CSim) (m : Nat) : Nat := ((c.topo.find? (·.pool == m)).map (·.host)).getD m
+
+def CSim.nodeSim (c : CSim) (m : Nat) : Sim :=
+  let pool := c.ss.cluster.pools m
+  let n := c.hostOf m
   { pool, names := c.names, sharded := false, n := 1, holdNew := false, held := [],
     stuck := ((c.stuck.find? (·.1 == n)).map (·.2)).getD [],
     holdNext := if c.muted.contains n then (List.range pool.nextId).map (·, 1000) else [],
@@ -561,7 +571,7 @@ def CSim.useKs (c : CSim) (i : Nat) (implTok : String := "") : Option (CSim × S
     | none => some (c, "MODEL-BUG")
 
 def CSim.nodeRow (c : CSim) (n : Nat) : String :=
-  let s := c.nodeSim n
+  let s := c.nodeSim (c.mid n)
   let rows := (List.range s.pool.nextId).filter s.alive |>.map fun i =>
     ">".intercalate ((s.pool.net i).acked.map srvName)
   let sorted := rows.toArray.qsort (· < ·) |>.toList
@@ -570,10 +580,10 @@ def CSim.nodeRow (c : CSim) (n : Nat) : String :=
 /-- `target = some n`: the request is TARGETED at node n (SingleTargetLoadBalancingPolicy), whether it owns tokens or
 not; `none`: any known node. -/
 def CSim.queryToks (c : CSim) (target : Option Nat := none) (pre : String := "q") : List String :=
-  (c.ss.cluster.known.filter fun n => match target with | some t => t == n | none => !c.zeroMask.testBit n).flatMap fun n =>
+  (c.ss.cluster.known.filter fun n => match target with | some t => t == c.hostOf n | none => !c.zeroMask.testBit (c.hostOf n)).flatMap fun n =>
     let p := c.ss.cluster.pools n
     ((possibleHandouts p (some 0)).filter fun i => !(p.net i).broken).map fun i =>
-      pre ++ (match (p.net i).serverKs with | some v => srvName v | none => "-") ++ s!"@{n}"
+      pre ++ (match (p.net i).serverKs with | some v => srvName v | none => "-") ++ s!"@{c.hostOf n}"
 
 /-- `Session::prepare`: a PREPARE on one `random_connection` of EVERY known node that has one
 (`iter_working_connections_to_nodes`); every one of them is among the model's `workingConnections`. -/
@@ -581,11 +591,29 @@ def CSim.prepareToks (c : CSim) (implToks : List String) : String :=
   let perNode := c.ss.cluster.known.filterMap fun n =>
     let p := c.ss.cluster.pools n
     let cands := ((possibleHandouts p none).filter fun i => !(p.net i).broken && p.workingConnections.contains i).map fun i =>
-      "p" ++ (match (p.net i).serverKs with | some v => srvName v | none => "-") ++ s!"@{n}"
+      "p" ++ (match (p.net i).serverKs with | some v => srvName v | none => "-") ++ s!"@{c.hostOf n}"
     match cands with
     | [] => none
     | c0 :: _ => some ((implToks.find? cands.contains).getD c0)
   if perNode.isEmpty then "p!" else ",".intercalate (perNode.toArray.qsort (· < ·)).toList
+
+/-- A metadata refresh: `calculate_new_topology` (Model/KeyspaceTopology.lean) over the peers the cluster reports now and
+the host filter's current answers; the pools of the nodes it creates are then run to quiescence. The token: per host
+`=` the same `Arc<Node>` (enabled), `-` the same (disabled), `n` a new enabled `Node` (new pool), `x` a new disabled
+one, `i` a new object on the old pool. -/
+def CSim.refreshStep (c : CSim) (pre : String) : CSim × String :=
+  let peers : List Peer := (List.range c.attrs.length).map fun h =>
+    let a := c.attrs.getD h (0, 0)
+    { host := h, addr := h, dc := a.1, rack := a.2, accepted := !c.hostMask.testBit h }
+  let arms := peers.map fun p => arm p (c.topo.find? (·.host == p.host))
+  let r := refreshEvents (K := VerifiedName) true 1 c.ss.cluster c.topo peers
+  let before := c.ss.cluster.nNodes
+  let c := r.2.foldl (fun c e => c.cl e) { c with topo := r.1 }
+  let created := (List.range (c.ss.cluster.nNodes - before)).map (before + ·)
+  let c := created.foldl (fun c m => if c.ss.cluster.filtered.contains m then c else c.onNode m fun s => s.quiesce 8) c
+  let letter : Arm → String
+    | .keep => "=" | .keepDisabled => "-" | .create => "n" | .newDisabled => "x" | .inheritIp => "i"
+  (c, pre ++ String.join (arms.map letter))
 
 def CSim.steps : List String → List String → CSim → List String → Option (List String)
   | [], _, _, acc => some acc.reverse
@@ -618,9 +646,9 @@ def CSim.steps : List String → List String → CSim → List String → Option
       match arg.toNat? with
       | none => none
       | some n =>
-        if n ≥ c.ss.cluster.nNodes then none
+        if n ≥ c.attrs.length then none
         else
-          let c := c.onNode n fun s => s.pool.conns.foldl (fun s i => s.ev (.breakConn i)) s
+          let c := c.onNode (c.mid n) fun s => s.pool.conns.foldl (fun s i => s.ev (.breakConn i)) s
           CSim.steps rest (impl.drop 1) c ("k" :: acc)
     | "W" =>
       -- host-filtered nodes have no pool: nothing to wait for there
@@ -629,10 +657,23 @@ def CSim.steps : List String → List String → CSim → List String → Option
       let full := pooled.all fun n => (c.ss.cluster.pools n).isFull
       CSim.steps rest (impl.drop 1) c ((if full then "w1" else "w0") :: acc)
     | "A" =>
-      let n := c.ss.cluster.nNodes
-      let c := c.cl (.addNode true 1 (c.hostMask.testBit n))
-      let c := if c.hostMask.testBit n then c else c.onNode n fun s => s.quiesce 8
+      -- the new host appears in the peer list: the `(true, None)` / `(false, None)` arms of calculate_new_topology
+      let (c, _) := { c with attrs := c.attrs ++ [(0, 0)] }.refreshStep ""
       CSim.steps rest (impl.drop 1) c (s!"a{c.ss.cluster.known.length}" :: acc)
+    -- `D<h>` / `B<h>`: the cluster reports another datacenter / rack for host h (toggled); `F<h>`: the host filter's
+    -- answer for host h flips; then a metadata refresh
+    | "D" | "B" | "F" =>
+      match arg.toNat? with
+      | none => none
+      | some h =>
+        if h ≥ c.attrs.length then none
+        else
+          let c := match op with
+            | "D" => { c with attrs := c.attrs.set h (let a := c.attrs.getD h (0, 0); (1 - a.1, a.2)) }
+            | "B" => { c with attrs := c.attrs.set h (let a := c.attrs.getD h (0, 0); (a.1, 1 - a.2)) }
+            | _ => { c with hostMask := c.hostMask ^^^ (1 <<< h) }
+          let (c, t) := c.refreshStep "d"
+          CSim.steps rest (impl.drop 1) c (t :: acc)
     | "P" => CSim.steps rest (impl.drop 1) c (c.prepareToks (tok.splitOn ",") :: acc)
     | "Q" =>
       let (karg, target) : String × Option (Option Nat) := match arg.splitOn "@" with
@@ -649,7 +690,7 @@ def CSim.steps : List String → List String → CSim → List String → Option
         let t := if okAll then tok else ",".intercalate (List.replicate (min k 16) (cands.headD "q!")) ++ "(model)"
         CSim.steps rest (impl.drop 1) c (t :: acc)
     | "L" =>
-      let rows := (List.range c.ss.cluster.nNodes).map c.nodeRow
+      let rows := (List.range c.attrs.length).map c.nodeRow
       CSim.steps rest (impl.drop 1) c (("l[" ++ "|".intercalate rows ++ "]") :: acc)
     | _ => none
 
@@ -668,6 +709,8 @@ def runSess (n names script impl : String) : String :=
     else
       let c0 : CSim := { ss := Session.init true 1, names, rules := [], hostMask := mask, zeroMask := zmask.getD 0 }
       let c := (List.range n).foldl (fun c i => c.cl (.addNode true 1 (mask.testBit i))) c0
+      let c := { c with attrs := List.replicate n (0, 0),
+                        topo := (List.range n).map fun i => { host := i, addr := i, dc := 0, rack := 0, enabled := !mask.testBit i, pool := i } }
       match CSim.steps ((script.splitOn ";").filter (· ≠ "")) (impl.splitOn ";") c [] with
       | some toks => ";".intercalate toks
       | none => "bad-case"
